@@ -219,7 +219,7 @@ def _backing_write(machine, dst, src, pool_out):
     # func_write seam: a store to a constant address goes where the machine itself would put it
     pool_out[dst] = src
 
-def run_real(ops, backing=False):
+def run_real(ops, backing=False, held=None):
     """Execute the history on the real machine.  Returns (machine, trace) where
     trace[k] describes what the reference must execute for op k."""
     s = sut()
@@ -231,6 +231,10 @@ def run_real(ops, backing=False):
         m = s.H.x86_machine()
     trace = []
     reuse_cache = {}
+    if held is not None:
+        first = ops[0] if ops else {}
+        kind = 'const' if (first.get('base') == 'const' or str(first.get('line', '')).startswith('mov ebx, %d' % CONST_BASE)) else 'sym'
+        held.update(early_probes(m, kind))
     for op in ops:
         reset_budget()
         if op['op'] in ('store', 'load', 'multi'):
@@ -383,12 +387,39 @@ def probe_plan(refs, vals, dense):
             plan.add((region, x))
     return sorted(plan)
 
-def check_history(ops, vals, dense=True, compare_flags=False, backing=False):
+def early_probes(m, base_kind):
+    """Read-back objects evaluated once on the FRESH machine; the very same objects are evaluated again after
+    the history (a client may keep its query expressions)."""
+    s = sut()
+    out = {}
+    regions = [('const', CONST_BASE)] if base_kind == 'const' else [('init_ebx', 0)]
+    regions.append(('init_esp', 0))
+    for region, origin in regions:
+        for d in range(-6, 14):
+            for w in (8, 16, 32):
+                if region == 'const':
+                    a = ['I', 'uint32', (origin + d) & M32]
+                    key = ('const', (origin + d) & M32, w)
+                else:
+                    base = canon.ser_expr(s.regs[region])
+                    a = base if d == 0 else ['O', '+', [base, ['I', 'uint32', d & M32]]]
+                    key = (region, d, w)
+                e = canon.deser_expr(['M', a, w, None, False], s.regs)
+                try:
+                    reset_budget()
+                    m.eval_expr(e, {})
+                except Exception:
+                    continue
+                out[key] = e
+    return out
+
+def check_history(ops, vals, dense=True, compare_flags=False, backing=False, reuse_probes=False):
     """One simulated history under several valuations.  Returns a dict:
     status 'ok' | 'discard' | 'violation'."""
     s = sut()
+    held = {}
     try:
-        m, trace, early = run_real(ops, backing)
+        m, trace, early = run_real(ops, backing, held if reuse_probes else None)
     except Discard as d:
         return {'status': 'discard', 'reason': str(d)}
     if early == 'rep-raises':
@@ -440,7 +471,10 @@ def check_history(ops, vals, dense=True, compare_flags=False, backing=False):
             else:
                 base = canon.ser_expr(s.regs[region])
                 a = base if d == 0 else ['O', '+', [base, ['I', 'uint32', d & M32]]]
-            e = canon.deser_expr(['M', a, w, None, False], s.regs)
+            hk = ('const', d & M32, w) if region == 'const' else (region, d, w)
+            e = held.get(hk)
+            if e is None:
+                e = canon.deser_expr(['M', a, w, None, False], s.regs)
             reset_budget()
             try:
                 r = m.eval_expr(e, {})
@@ -765,7 +799,8 @@ def gen_history(rng):
     else:
         for _ in range(n):
             ops.append({'op': 'insn', 'line': gen_arith_line(rng) if rng.random() < 0.7 else gen_move_line(rng)})
-    return {'mode': mode, 'base': base, 'nsym': max(nsym, 2), 'backing': (rng.choice([True, 'read-only']) if (base == 'const' and rng.random() < 0.4) else False)}, ops
+    return {'mode': mode, 'base': base, 'nsym': max(nsym, 2), 'backing': (rng.choice([True, 'read-only']) if (base == 'const' and rng.random() < 0.4) else False),
+            'reuse_probes': rng.random() < 0.25}, ops
 
 # ------------------------------------------------------------ classification
 
